@@ -621,7 +621,7 @@ def c08(ctx):
     kts = kts_for(ctx, 5)
     # quick: one pair of key types in depth, the other three key types in short lifecycles
     runs = [(kts[0], kts[1], 256, 3), (kts[2], kts[3], 512, 2), (kts[4], kts[2], 256, 2)] if ctx.tier == "quick" else \
-        [(a, b, h, 4) for (a, b, h) in [("ed", "p256", 256), ("p256", "k1", 512), ("p384", "p521", 256), ("k1", "ed", 512), ("p521", "p384", 512)]]
+        [("ed", "p256", 256, 4), ("p256", "k1", 512, 4), ("p384", "p521", 256, 3), ("k1", "ed", 512, 3), ("p521", "p384", 512, 3)]
     first = None
     for ukt, rkt, h, ml in runs:
         _, summ = ctx.tlc_pipe("MC_Client.tla", "MC_Client.cfg", ["client-replay", "-ukt", ukt, "-rkt", rkt, "-h", str(h)],
